@@ -43,7 +43,7 @@ type probObs struct {
 }
 
 type entryObs struct {
-	PathErr   int      `json:"path_err"`  // 0 none, >0 ParseError line, -1 other kind of path error
+	PathErr   int      `json:"path_err"` // 0 none, >0 ParseError line, -1 other kind of path error
 	PathErrOK bool     `json:"path_err_present"`
 	RuleErr   int      `json:"rule_err"`
 	RuleErrOK bool     `json:"rule_err_present"`
@@ -52,14 +52,14 @@ type entryObs struct {
 }
 
 type pipeResult struct {
-	Panic    string            `json:"panic,omitempty"`
-	Timeout  bool              `json:"timeout,omitempty"`
-	FindErr  string            `json:"find_err,omitempty"`
-	Entries  []entryObs        `json:"entries"`
-	Problems []probObs         `json:"problems"`
-	Render   map[string]string `json:"render_errors,omitempty"`
-	Plain    bool              `json:"plain"` // no file comments, no ignore diagnostics (the Routing model applies)
-	TotalLines int             `json:"total_lines"` // File.TotalLines of the entries (-1 = no entry carried a File)
+	Panic      string            `json:"panic,omitempty"`
+	Timeout    bool              `json:"timeout,omitempty"`
+	FindErr    string            `json:"find_err,omitempty"`
+	Entries    []entryObs        `json:"entries"`
+	Problems   []probObs         `json:"problems"`
+	Render     map[string]string `json:"render_errors,omitempty"`
+	Plain      bool              `json:"plain"`       // no file comments, no ignore diagnostics (the Routing model applies)
+	TotalLines int               `json:"total_lines"` // File.TotalLines of the entries (-1 = no entry carried a File)
 }
 
 func init() { slog.SetDefault(slog.New(slog.NewTextHandler(io.Discard, nil))) }
@@ -215,13 +215,13 @@ func (r pipeResult) lineViolations(n int) []string {
 // ---- the real binary ----
 
 type binResult struct {
-	Exit     int      `json:"exit"`
-	Crash    string   `json:"crash,omitempty"`
-	Timeout  bool     `json:"timeout,omitempty"`
+	Exit      int      `json:"exit"`
+	Crash     string   `json:"crash,omitempty"`
+	Timeout   bool     `json:"timeout,omitempty"`
 	JSONLines [][2]int `json:"json_lines,omitempty"`
-	XMLLines []int    `json:"xml_lines,omitempty"`
-	TCLines  []int    `json:"tc_lines,omitempty"`
-	BadOut   string   `json:"bad_output,omitempty"`
+	XMLLines  []int    `json:"xml_lines,omitempty"`
+	TCLines   []int    `json:"tc_lines,omitempty"`
+	BadOut    string   `json:"bad_output,omitempty"`
 }
 
 var (
